@@ -1,9 +1,10 @@
 #!/usr/bin/env python3
 """DESIGN 2.6: extract the constant tables from /repo's source on every run and compare them with the
 constants the Lean model was proved about (lean/ProfiVerif/Model/Telegram.lean)."""
-import re, sys
+import re, sys, os
+ROOT = os.path.dirname(os.path.dirname(os.path.abspath(__file__)))
 src = open('/repo/src/consts.rs').read()
-lean = open('/verif/lean/ProfiVerif/Model/Telegram.lean').read()
+lean = open(os.path.join(ROOT, 'lean/ProfiVerif/Model/Telegram.lean')).read()
 rust = {}
 for m in re.finditer(r'pub const (\w+): u8 = (0x[0-9A-Fa-f]+|\d+);', src):
     rust[m.group(1)] = int(m.group(2), 0)
